@@ -138,9 +138,10 @@ def gen_scenario(ns, rng):
     rng.shuffle(order)
     order += [rng.randrange(len(sockets)) for _ in range(rng.choice([0, 1, 2]))]
     for k, si in enumerate(order):
-        call = rng.choice(["create_keep", "recv_keep", "create_measure", "recv_measure", "create_keep", "create_measure"])
+        call = rng.choice(["create_keep", "recv_keep", "create_measure", "recv_measure", "create_rsp", "recv_rsp",
+                           "create_keep", "recv_keep"])
         kw = dict(number=rng.randint(1, 2))
-        if call == "create_measure" and rng.random() < 0.5:
+        if call in ("create_measure", "create_rsp") and rng.random() < 0.5:
             kw["rotations_local"] = rot(rng)
         if call in ec.CREATE_CALLS and rng.random() < 0.4:
             kw.update(time_unit=rng.choice(UNITS), max_time=rng.randint(1, 999))
@@ -152,7 +153,7 @@ def gen_scenario(ns, rng):
                 r[2] = 100 * (k + 1) + i      # physical qubit ids distinct across the whole program
         ops.append(op)
     nk = sum(op["kw"]["number"] for op in ops if not ec.resp_is_m(op["call"]))
-    return dict(purpose=purpose, own_node=own, peers=peers, sockets=sockets, ops=ops, flush_each=rng.random() < 0.6,
+    return dict(purpose=purpose, own_node=own, peers=peers, sockets=sockets, ops=ops, flush_each=rng.random() < 0.75,
                 max_qubits=max(8, nk + 1))   # without intermediate flushes all kept pairs are live at once
 
 
@@ -182,6 +183,14 @@ def scenario_oracle(ns, scen, out):
             bad = ec.check_handles(ns, op, got["handles"])
             if bad:
                 fails.append((tag + ": a result handle does not show the field of its pair's response", bad[:4]))
+            elif got["handles_late"] is None:
+                fails.append((tag + ": the handles could not be read again at the end of the program", ""))
+            else:
+                bad = ec.check_handles(ns, op, got["handles_late"])
+                if bad:
+                    fails.append((tag + f": read again after the later rounds ({len(scen['ops']) - 1 - k} more operations, "
+                                  f"{'one subroutine per operation' if scen['flush_each'] else 'one subroutine'}), a result "
+                                  "handle no longer shows the field of its own round's response", bad[:4]))
     return fails
 
 
